@@ -159,6 +159,7 @@ func H_C10_TopUp() {
 	rt.Assert("C10.released-paid", rt.IntEq(rt.IntAdd(se.Bank.Bal(pre.Receiver, "nund"), se.Bank.Bal(se.FeeColl, "nund")), released))
 	rt.Assert("INV.stream", invStreamOf(st, nowNs))
 	rt.Assert("INV.rate-unchanged", st.FlowRate == pre.Rate)
+	rt.Assert("C11.topup-flow-clock", rt.IntEq(rt.TimeNanos(st.LastOutflowTime), rt.IteInt(expired, nowNs, pre.Last)))
 }
 
 // H_C10_Update: one UpdateFlowRate step.
@@ -197,6 +198,8 @@ func H_C10_Update() {
 	rt.Assert("C11.update-zero-time", rt.IntEq(rt.TimeNanos(st.DepositZeroTime), addSecsSat(nowNs, ext)))
 	rt.Assert("C10.escrow-backed", rt.IntEq(se.Bank.Bal(se.Escrow, "nund"), rt.IntAdd(st.Deposit.Amount, pre.Other)))
 	rt.Assert("C10.released-paid", rt.IntEq(rt.IntAdd(se.Bank.Bal(pre.Receiver, "nund"), se.Bank.Bal(se.FeeColl, "nund")), released))
+	// (an empty stream has nothing flowing: its clock is restarted by the next top-up instead)
+	rt.Assert("C11.update-restarts-flow-clock", rt.Implies(rt.IntLt(sdk.ZeroInt(), pre.Deposit), st.LastOutflowTime.Equal(now)))
 	rt.Assert("INV.stream", invStreamOf(st, nowNs))
 }
 
